@@ -51,6 +51,8 @@ func c19Configs() []c19Config {
 		c19Config{Name: "cookie-name-tokens", Flags: []string{"--cookie-name=a|b^c$d`e~f!g#h%i&j'k"}},
 		c19Config{Name: "cookie-name-star-redis", Flags: []string{"--cookie-name=x+*y"}, Redis: true},
 		c19Config{Name: "allow-semicolons", Flags: []string{"--allow-query-semicolons=true"}},
+		c19Config{Name: "no-websockets", Flags: []string{"--proxy-websockets=false", "--skip-auth-route=^/pub"}, Htpw: true},
+		c19Config{Name: "no-websockets-flush", Flags: []string{"--proxy-websockets=false", "--flush-interval=100ms", "--pass-host-header=false"}},
 		c19Config{Name: "groups-emails", Flags: []string{"--allowed-group=staff"}, Htpw: true, Bearer: true},
 	)
 	for _, h := range []string{"X-Forwarded-For", "X-Real-IP", "X-ProxyUser-IP", "X-Envoy-External-Address", "CF-Connecting-IP"} {
@@ -214,6 +216,17 @@ func c19Fields(px *Proxy, idp *world.IdP, validCookie string, csrfCookie, goodSt
 		for _, v := range []string{"garbage", "999.1.1.1", "10.1.2.3", "10.1.2.3, 1.1.1.1", ",", " ", "[::1]:80", "::ffff:10.0.0.1", "10.0.0.1:99999", "fe80::1%eth0"} {
 			fw = append(fw, c19Alt{Name: "fwd=" + h + ":" + v, Apply: setHeader(h, v)})
 		}
+	}
+	// protocol-upgrade handshakes (several header lines at once)
+	for _, up := range [][][2]string{
+		{{"Connection", "Upgrade"}, {"Upgrade", "websocket"}, {"Sec-WebSocket-Version", "13"}, {"Sec-WebSocket-Key", "dGhlIHNhbXBsZSBub25jZQ=="}},
+		{{"Connection", "keep-alive, Upgrade"}, {"Upgrade", "WebSocket"}},
+		{{"Connection", "upgrade"}, {"Upgrade", "h2c"}, {"HTTP2-Settings", "AAMAAABkAAQCAAAAAAIAAAAA"}},
+		{{"Upgrade", "websocket"}},
+		{{"Connection", "Upgrade"}},
+	} {
+		up := up
+		fw = append(fw, c19Alt{Name: "fwd=upgrade:" + up[0][1] + "/" + up[len(up)-1][1], Apply: func(r *world.Req) { r.Headers = append(r.Headers, up...) }})
 	}
 	for _, hv := range [][2]string{
 		{"X-Forwarded-Host", "evil.example"}, {"X-Forwarded-Host", "a b"}, {"X-Forwarded-Host", ""}, {"X-Forwarded-Host", strings.Repeat("h", 5000)},
